@@ -190,6 +190,9 @@ def _rio_reproject(
 
     def _alias_or_convert(arr: np.ndarray) -> Tuple[np.ndarray, bool]:
         if arr.dtype.name not in dtype_remap:
+            if not arr.dtype.isnative:
+                # GDAL takes the buffer as being in native byte order
+                return arr.astype(arr.dtype.newbyteorder("=")), False
             return arr, False
         wk_dtype = dtype_remap[arr.dtype.name]
         if arr.dtype.name == "bool":
@@ -233,7 +236,7 @@ def _rio_reproject(
     )
 
     if dst is not _dst:
-        # int8 workaround copy pixels back to int8
+        # int8/byte order workaround: copy pixels back into the caller's array
         if src_is_bool:
             # undo [0, 1] to [0, 255] stretching of the src
             np.copyto(dst, _dst > 127, casting="unsafe")
